@@ -17,5 +17,5 @@ FSpec == FInit /\ [][FNext]_fvars
 Emit == count = T => PrintT("@@GEN " \o ToJson([cfg |-> cfg, sched |-> sched]))
 F_Cfgs == [S : {1, 2}, P : {1, 2}, Start : {1}, sched : {"none"}, End : {0},
            mode : {"rep", "pmapq", "shard"}, thr : {"pos"}]
-F_Grad == {"ok", "zero", "nan", "inf", "huge", "tiny"}
+F_Grad == {"ok", "zero", "nan", "inf", "huge", "tiny", "big", "small"}
 ====
